@@ -81,8 +81,10 @@ def axis_points(ax, lo_factor=0.5):
 
 
 def expectation(table, z, x, y):
-    """('exact'|'range', value or (lo,hi)) for query (io=x, vi=y), coordinates clamped to the table."""
-    io, vi, Z = table["io"], table["vi"], table[z]
+    """('exact'|'range', value or (lo,hi)) for query (io=x, vi=y), coordinates clamped to the table.
+    The vi rows may be listed in any order (real saved systems list them descending): sort them first."""
+    order = sorted(range(len(table["vi"])), key=lambda i: table["vi"][i])
+    io, vi, Z = table["io"], [table["vi"][i] for i in order], [table[z][i] for i in order]
     cx = min(max(x, io[0]), io[-1])
     if len(vi) == 1:
         return "exact", lin(cx, io, Z[0])
@@ -121,9 +123,12 @@ def tables(tier, z):
                 combos.append([c if (ii == 1 and vv == 1) else a for vv in range(len(vi)) for ii in range(len(io))])
                 if tier != "quick":
                     combos += [list(x) for x in itertools.islice(itertools.product(vals, repeat=n), 0, 3 ** n, 7)]
-            for zz in combos:
+            for ci, zz in enumerate(combos):
                 zz = list(zz)
-                out.append({"vi": vi, "io": io, z: [zz[r * len(io):(r + 1) * len(io)] for r in range(len(vi))]})
+                rows = [zz[r * len(io):(r + 1) * len(io)] for r in range(len(vi))]
+                out.append({"vi": vi, "io": io, z: rows})
+                if ci % 3 == 0:  # the same table with its vi rows listed in descending order
+                    out.append({"vi": vi[::-1], "io": io, z: rows[::-1]})
     return out
 
 
@@ -134,7 +139,7 @@ def check_case(case):
     io, vi = table["io"], table["vi"]
     xin, xout = axis_points(io)
     if len(vi) > 1:
-        yin, yout = axis_points(vi)
+        yin, yout = axis_points(sorted(vi))
     else:
         yin, yout = [vi[0], vi[0] * 0.5, vi[0] * 2], []
     if case["tier"] == "quick":
@@ -158,7 +163,7 @@ def check_case(case):
                 if val is None:
                     res.v(("C10.probe-not-pinned", carrier), "io=%r vi=%r" % (x, sg * y))
                     continue
-                inside = io[0] <= x <= io[-1] and (len(vi) == 1 or vi[0] <= y <= vi[-1])
+                inside = io[0] <= x <= io[-1] and (len(vi) == 1 or min(vi) <= y <= max(vi))
                 where = ("grid" if (x in io and (len(vi) == 1 or y in vi)) else "inside") if inside else "outside"
                 if not math.isfinite(val):
                     res.v(("C10.nan", carrier, "%dD" % (1 if len(vi) == 1 else 2), where), "io=%r vi=%r -> %r" % (x, sg * y, val))
